@@ -1,5 +1,6 @@
 CFG = {
  'files': ['bitstr/bitstr.go'],
+ 'runs': [{'tags': 'verif'}, {'tags': 'verif', 'race': True, 'thorough_only': True}],
  'go': {'bitstr.New': 'bitstr.New',
         'bitstr.Len': 'bitstr.Len(bitstr.New(s,from,to))',
         'bitstr.Cmp': 'bitstr.Cmp(bitstr.New(s1,f1,t1), bitstr.New(s2,f2,t2))',
